@@ -225,6 +225,18 @@ let handle (ws : string list) : string =
   | ["hint"; rep; sel; nb] ->
       (match hint_loop (nat_of_int 40) (n_of_string nb) (hint_start (rep = "1") (n_of_string sel)) with
        | None -> "FUEL" | Some l -> String.concat "," (List.map string_of_n l))
+  (* round 3: Train/LimitsModel.v *)
+  | "lplan" :: maxs :: fixed :: sizes ->
+      (* maxs = 0: the regenerated ZDICT_MAX_SAMPLES_SIZE; else the scaled limit of harness/c18_legsmall.c *)
+      (match (if maxs = "0" then legacy_plan (fixed = "1") (List.map n_of_string sizes)
+              else legacy_plan_at (n_of_string maxs) (fixed = "1") (List.map n_of_string sizes)) with
+       | LgNoDict -> "NODICT" | LgTrap -> "TRAP"
+       | LgPlan (c, a, nb) -> Printf.sprintf "PLAN %s %s %s" (string_of_n c) (string_of_n a) (string_of_n nb))
+  | ["oc"; fixed; sz] ->
+      (match offcode_max (fixed = "1") (n_of_string sz) with
+       | OcTrap -> "TRAP" | OcTooLarge -> "TOOLARGE" | OcOk m -> "OK " ^ string_of_n m)
+  | ["offs"; fixed; nb] ->
+      Printf.sprintf "%s %s" (string_of_n (offsets_alloc (fixed = "1") (n_of_string nb))) (string_of_n (offsets_written (n_of_string nb)))
   | _ -> failwith ("unknown case: " ^ String.concat " " ws)
 
 let () =
